@@ -157,7 +157,7 @@ def main(c):
         shards = []
         for k in range(4 if thorough else 3):
             w = os.path.join(base, 'w%d' % k); kd = os.path.join(base, 'k%d' % k); os.makedirs(w); os.makedirs(kd)
-            shards.append(['gen', c.seed * 1000 + 500 + k, 2 if thorough else 1, w, kd])
+            shards.append(['gen', c.seed * 1000 + 500 + k, 1, w, kd])   # scale 1 in both tiers (the thorough tier has one more shard): the pure-Python page decoder bounds the volume
         c2 = vlib.Check('C16', 'exploration', ['--tier', c.tier])
         vlib.run_shards(c2, exe1, shards, cpu_limit=3000)
         files = [os.path.join(sh[4], fn) for sh in shards for fn in sorted(os.listdir(sh[4])) if fn.endswith('.parquet')]
